@@ -167,8 +167,8 @@ theorem ctx_reset_needed_other_parser :
 theorem linked_fresh_needed :
     let F : Facts := { genFacts with linkedOnFreshOnly := false }
     (step F D0 (runHist F D0 [(0, .parseArgs { id := 7, toks := [tok (.plain true)] })] (init D0))
-        (0, .dump { id := 8 } { skipValidation := true, skipNone := true })).2
-      ≠ (step F D0 (init D0) (0, .dump { id := 8 } { skipValidation := true, skipNone := true })).2 := by decide
+        (0, .dump { id := 8 } { skipValidation := true, skipNone := true } false)).2
+      ≠ (step F D0 (init D0) (0, .dump { id := 8 } { skipValidation := true, skipNone := true } false)).2 := by decide
 
 /-- `self.args` assigned after parsing: the class-help action would see the previous argv -/
 theorem args_before_parse_needed :
@@ -187,8 +187,8 @@ theorem kw_set_needed :
 /-- dump_kwargs not set by serialize: a nested dump would use the previous dump's options -/
 theorem dk_set_needed :
     let F : Facts := { genFacts with dkSetInSerialize := false }
-    let d1 : Op := .dump { id := 13, tail := { clsFinal := true } } { skipValidation := false, skipNone := false }
-    let d2 : Op := .dump { id := 13, tail := { clsFinal := true } } { skipValidation := false, skipNone := true }
+    let d1 : Op := .dump { id := 13, tail := { clsFinal := true } } { skipValidation := false, skipNone := false } false
+    let d2 : Op := .dump { id := 13, tail := { clsFinal := true } } { skipValidation := false, skipNone := true } false
     (step F D0 (runHist F D0 [(0, d1)] (init D0)) (0, d2)).2 ≠ (step F D0 (init D0) (0, d2)).2 := by decide
 
 /-! ## non-vacuity: the model distinguishes the outcomes, and carriers do change -/
@@ -208,7 +208,7 @@ theorem outcomes :
 theorem carriers_change :
     let w := runHist genFacts D0 [(0, .parseArgs { id := 21, toks := [tok (.dc true true false)],
                                                    sub := some { idx := 1, argsId := 22, toks := [tok .deep] } }),
-                                   (0, .dump { id := 23 } { skipValidation := true, skipNone := false })] (init D0)
+                                   (0, .dump { id := 23 } { skipValidation := true, skipNone := false } false)] (init D0)
     w.lastArgs (.root 0) = some 21 ∧ w.lastArgs (.sub 0 1) = some 22 ∧ w.shtabAdded 0 = true ∧
     w.parseKwargs = some { env := none, defaults := false } ∧ w.subclassArgParser = some .eph ∧
     w.dumpKwargs = some { skipValidation := true, skipNone := false } := by decide
